@@ -241,8 +241,53 @@ u_session(uint64_t idx, void *arg)
         unsigned nframes = 1 + (unsigned)vh_below(&rg, 50);
         uint16_t seq = vh_chance(&rg, 1, 4) ? 0xfffd : (uint16_t)vh_rand(&rg);
         char ctx[80];
+        /* every other session has noise between its requests: damaged frames, oversized frames, empty frames
+         * and allocation failures are received and processed in between (their own handling is C07's and C09's
+         * subject); the requests that follow must be served as if nothing had happened */
+        const int noisy = s & 1;
         for (unsigned f = 0; f < nframes; f++) {
             struct req q;
+            if (noisy && vh_chance(&rg, 1, 3)) {
+                struct req nq;
+                unsigned char wire[1400], raw[700];
+                size_t rawn, wn;
+                gen_req(&rg, &H, &nq, (uint16_t)vh_rand(&rg));
+                wn = wire_of(&nq, H.serial, wire, raw, &rawn);
+                unsigned kind = (unsigned)vh_below(&rg, 5);
+                if (kind == 0 && rawn > 0) {
+                    raw[vh_below(&rg, rawn)] ^= (unsigned char)(1u << vh_below(&rg, 8)); /* one flipped bit */
+                    wn = rp_wire(H.serial, raw, rawn, wire);
+                } else if (kind == 1) {
+                    rawn = (size_t)vh_below(&rg, rawn + 1); /* truncated, possibly to nothing */
+                    wn = rp_wire(H.serial, raw, rawn, wire);
+                } else if (kind == 2) {
+                    memset(raw + rawn, 0x11, sizeof raw - rawn); /* longer than the frame block */
+                    rawn = H.blocksize + (size_t)vh_below(&rg, 40);
+                    if (rawn > sizeof raw)
+                        rawn = sizeof raw;
+                    wn = rp_wire(H.serial, raw, rawn, wire);
+                } else if (kind == 3) {
+                    H.fail_alloc_at = (long)H.alloc_calls; /* the next allocation fails */
+                } /* kind 4: an intact frame whose reply nobody looks at */
+                rp_feed(&H, wire, wn);
+                H.out_n = 0;
+                H.ncalls = 0;
+                H.verdict = (RPBlockAccess){ .status = RP_RESP_ACK, .address = 0 };
+                RPMaybeFrame nmf;
+                regp_recv(&H.p, &nmf);
+                regp_process(&H.p, &nmf);
+                regp_free(&H.p, nmf.frame);
+                H.fail_alloc_at = -1;
+                if (rp_live_blocks(&H) != 0 || H.bad_free) {
+                    vh_fail("block-ledger", "workload=noise", "session %" PRIu64 ".%d: %d blocks live, bad free=%d after a "
+                            "noise frame of kind %u", idx, s, rp_live_blocks(&H), H.bad_free, kind);
+                    H.bad_free = 0;
+                    for (int i = 0; i < H.nblk; i++)
+                        H.blk[i].live = 0;
+                }
+                rp_ledger_gc(&H);
+                VH_COUNT("noise frame between requests of a session");
+            }
             gen_req(&rg, &H, &q, seq++);
             RPBlockAccess verdict = { .status = RP_RESP_ACK, .address = 0 };
             if (vh_chance(&rg, 1, 2)) {
@@ -573,6 +618,7 @@ harness_run(void)
     }
     vh_require("non-request frame: no access, no reply");
     vh_require("request with the wrong word size");
+    vh_require("noise frame between requests of a session");
     vh_require("read with the wrong word size and a block no answer could carry");
     vh_require("frame carrying 65536 or more payload octets");
     static const char *t[] = { "table verdict -> ACK", "table verdict -> EUNMAPPED", "table verdict -> EACCESS",
